@@ -229,6 +229,19 @@ def install(it, fs):
         fs.pending.append(("rename", src, dst))
         return None
 
+    def m_link(it2, a, k):
+        src, dst = fs.p(a[0]), fs.p(a[1])
+        if fs.step("link", (src, dst)):
+            fs.fail("link")
+        ino = fs.names.get(src)
+        if ino is None:
+            raise PyRaise(ExcVal(FileNotFoundError, (src,), site="fs:link"))
+        if fs.names.get(dst) is not None:
+            raise PyRaise(ExcVal(FileExistsError, (17, "File exists", dst), site="fs:link"))
+        fs.names[dst] = ino
+        fs.pending.append(("create", dst, ino))
+        return None
+
     def m_remove(it2, a, k):
         p = fs.p(a[0])
         if fs.step("remove", p):
@@ -255,6 +268,9 @@ def install(it, fs):
     it.models[id(os.fsync)] = ModelFn("os.fsync", m_fsync)
     it.models[id(os.rename)] = ModelFn("os.rename", m_rename)
     it.models[id(os.remove)] = ModelFn("os.remove", m_remove)
+    it.models[id(os.unlink)] = ModelFn("os.unlink", m_remove)
+    it.models[id(os.replace)] = ModelFn("os.replace", m_rename)
+    it.models[id(os.link)] = ModelFn("os.link", m_link)
     it.models[id(json.dump)] = ModelFn("json.dump", m_dump("json"))
     it.models[id(pickle.dump)] = ModelFn("pickle.dump", m_dump("pickle"))
     it.models[id(json.load)] = ModelFn("json.load", m_load("json"))
